@@ -639,4 +639,143 @@ def Repo.rebaseDescendants (r : Repo) (immutable : List Nat) (opts : Options) :
   | .error e => .error e
   | .ok (r, steps) => .ok ({ r with mapping := [] }, steps)
 
+/-! ### C13: merging concurrent operations (`MutableRepo::merge`, `merge_view`, `record_rewrites`,
+    `merge_wc_commit`, `RepoLoader::merge_operations`) -/
+
+/-- `diff_named_commit_ids` / `diff_named_ref_targets`: the names (ascending) whose values differ,
+    with both values (`none` = not present) -/
+def diffNamed {β : Type} [DecidableEq β] (a b : List (Nat × β)) : List (Nat × Option β × Option β) :=
+  let names := sortAsc (dedup (a.map (·.1) ++ b.map (·.1)))
+  names.filterMap fun n =>
+    let x := a.lookup n
+    let y := b.lookup n
+    if x = y then none else some (n, x, y)
+
+/-- the value `merge_wc_commit` decides on: trivial merge, else removal wins, else the self side -/
+def mergeWcValue (selfId baseId otherId : Option Nat) : Option Nat :=
+  match trivialMerge [selfId, baseId, otherId] .accept with
+  | some r => r
+  | none => if selfId.isNone || otherId.isNone then none else selfId
+
+/-- `MutableRepo::merge_wc_commit` -/
+def View.mergeWcCommit (v : View) (name : Nat) (baseId otherId : Option Nat) : View :=
+  match mergeWcValue (assocGet v.wc name) baseId otherId with
+  | some id => { v with wc := assocSet name id v.wc }
+  | none => { v with wc := assocErase name v.wc }
+
+/-- what `record_rewrites` records for one removed commit, given the added commits (walk order) -/
+def rewriteRecordFor (s : Store) (added : List Nat) (old : Nat) : Option Rewrite :=
+  match added.filter fun c => changeOf s c == changeOf s old with
+  | [] => none
+  | [n] => some (.rewritten n)
+  | ns => some (.divergent ns)
+
+/-- first loop of `record_rewrites`: `set_rewritten_commit` / `set_divergent_rewrite` -/
+def Repo.recordRewriteStep (added : List Nat) (r : Repo) (old : Nat) : Repo :=
+  match rewriteRecordFor r.store added old with
+  | some rw => { r with mapping := r.mapping.insert old rw }
+  | none => r
+
+/-- second loop: removed commits whose change id does not reappear are abandoned -/
+def Repo.recordAbandonStep (added : List Nat) (r : Repo) (old : Nat) : Repo :=
+  if added.any fun c => changeOf r.store c == changeOf r.store old then r
+  else r.recordAbandoned old
+
+/-- `MutableRepo::record_rewrites(old_heads, new_heads)`: commits only reachable from the old heads
+    are matched by change id against commits only reachable from the new heads
+    (`walk_revs` yields descending index positions). -/
+def Repo.recordRewrites (r : Repo) (oldHeads newHeads : List Nat) : Repo :=
+  let ao := ancestors r.store oldHeads
+  let an := ancestors r.store newHeads
+  let removed := sortDesc (ao.filter fun c => !an.contains c)
+  if removed.isEmpty then r
+  else
+    let added := sortDesc (an.filter fun c => !ao.contains c)
+    removed.foldl (Repo.recordAbandonStep added) (removed.foldl (Repo.recordRewriteStep added) r)
+
+def optTarget (t : Option RefTarget) : RefTarget :=
+  match t with
+  | some t => t
+  | none => RefTarget.absent
+
+/-- first phase of `merge_view`: working copies -/
+def View.mergeWcs (v : View) (base other : View) : View :=
+  (diffNamed base.wc other.wc).foldl
+    (fun (v : View) (e : Nat × Option Nat × Option Nat) => v.mergeWcCommit e.1 e.2.1 e.2.2) v
+
+/-- second phase: rewrites/abandons of both sides are recorded, the other side's new heads added -/
+def Repo.mergeHeads (r : Repo) (base other : View) : Repo :=
+  let ownHeads := r.view.heads
+  let r := r.recordRewrites base.heads ownHeads
+  let r := r.recordRewrites base.heads other.heads
+  { r with view := (other.heads.filter fun h => !base.heads.contains h).foldl View.addHead r.view }
+
+/-- body of the bookmark loop of `merge_view` -/
+def Repo.mergeBookmarkStep (r : Repo) (e : Nat × Option RefTarget × Option RefTarget) : Repo :=
+  r.mergeLocalBookmark e.1 (optTarget e.2.1) (optTarget e.2.2)
+
+/-- third phase: local bookmarks -/
+def Repo.mergeBookmarks (r : Repo) (base other : View) : Repo :=
+  (diffNamed base.bookmarks other.bookmarks).foldl Repo.mergeBookmarkStep r
+
+/-- `MutableRepo::merge_view(base, other)` restricted to heads, local bookmarks, working copies -/
+def Repo.mergeView (r : Repo) (base other : View) : Repo :=
+  let r := { r with view := r.view.mergeWcs base other }
+  let r := r.mergeHeads base other
+  r.mergeBookmarks base other
+
+/-- `MutableRepo::merge(base_repo, other_repo)`; the index merge is the caller's store append -/
+def Repo.merge (r : Repo) (base other : View) : Repo :=
+  let r := { r with view := { r.view with heads := normalizeHeads r.store r.view.heads } }
+  r.mergeView base other
+
+def defaultOptions : Options := { empty := 0, simplify := false, deleteAbandoned := false }
+
+/-- one side of a concurrent history: the commits it added to the index (parents, predecessors and
+    the view refer to *request* ids, translated through `idmap`) and its final view -/
+structure Side where
+  commits : List Commit
+  view : View
+
+def mapId (idmap : List Nat) (q : Nat) : Nat :=
+  match idmap[q]? with
+  | some i => i
+  | none => q
+
+def mapTarget (idmap : List Nat) (t : RefTarget) : RefTarget := t.map fun x => x.map (mapId idmap)
+
+def mapView (idmap : List Nat) (v : View) : View :=
+  { heads := v.heads.map (mapId idmap),
+    bookmarks := v.bookmarks.map fun e => (e.1, mapTarget idmap e.2),
+    wc := v.wc.map fun e => (e.1, mapId idmap e.2) }
+
+/-- `index.merge_in(other)`: the other side's commits are appended in their own order -/
+def appendCommits (s : Store) (idmap : List Nat) : List Commit → Store × List Nat
+  | [] => (s, idmap)
+  | c :: cs =>
+    let idmap := idmap ++ [s.length]
+    let c' : Commit := { c with parents := c.parents.map (mapId idmap), preds := c.preds.map (mapId idmap),
+                                change := mapId idmap c.change }
+    appendCommits (s ++ [c']) idmap cs
+
+/-- `RepoLoader::merge_operations([op₀, op₁, …])` for operations that all have the single common
+    ancestor `base`: start from `op₀`'s repo, then for each further operation
+    `tx.merge_operation(base, opᵢ)` followed by `rebase_descendants()`. -/
+def mergeSides (base : View) : Repo → List Nat → List Side → Except Err (Repo × List Nat)
+  | r, idmap, [] => .ok (r, idmap)
+  | r, idmap, sd :: rest =>
+    let (s, idmap) := appendCommits r.store idmap sd.commits
+    let r := { r with store := s }
+    let r := r.merge base (mapView idmap sd.view)
+    match r.rebaseDescendants [] defaultOptions with
+    | .error e => .error e
+    | .ok (r, _) => mergeSides base r idmap rest
+
+def mergeOperations (baseStore : Store) (base : View) (sides : List Side) : Except Err (Repo × List Nat) :=
+  match sides with
+  | [] => .ok ({ store := baseStore, view := base, mapping := [] }, List.range baseStore.length)
+  | first :: rest =>
+    let (s, idmap) := appendCommits baseStore (List.range baseStore.length) first.commits
+    mergeSides base { store := s, view := mapView idmap first.view, mapping := [] } idmap rest
+
 end JjModel.Repo
